@@ -38,6 +38,8 @@ type caseC12 struct {
 	// callers-shared: the Prog is parsed without OptOutput, so that its output
 	// is the library's default (standard output, here redirected to a file)
 	DefOut bool `json:"defout,omitempty"`
+	// the cold-start scenario (coldStartC12), not a drawn case
+	ColdStart bool `json:"cold_start,omitempty"`
 }
 
 var raceSeen = map[string]int64{}
@@ -425,11 +427,81 @@ func srcFor12(t *rapid.T, mayBeInvalid bool) string {
 	}
 }
 
+// coldStartC12 makes the very first calls into the library of this process
+// concurrent ones: twelve goroutines, released together, each parse (whole or
+// through ParseFile), dump, load, execute and unmarshal an input of their own.
+// Whatever the library initialises on first use (tables, caches, defaults) is
+// then initialised under contention; later cases can never see that again.
+func coldStartC12(t *testing.T, rec *harness.Rec) {
+	const n = 12
+	var wg sync.WaitGroup
+	start := make(chan struct{})
+	outs := make([]string, n)
+	for i := 0; i < n; i++ {
+		wg.Add(1)
+		go func(i int) {
+			defer wg.Done()
+			src := fmt.Sprintf("var a = %d\ndef srv \"n%d\" { port = a + 1; on = not a; tag = \"t\" + a }\nbind srv -> struct\nprint a * 2 < 3 or a\n", i, i)
+			var out, log bytes.Buffer
+			<-start
+			var p *bcl.Prog
+			var err error
+			if i%3 == 0 {
+				p, err = bcl.ParseFile(&scriptFile{data: []byte(src), script: []readStep{{N: 7}, {N: 0}, {N: 30}}, name: "n"}, bcl.OptOutput(&out), bcl.OptLogger(&log))
+			} else {
+				p, err = bcl.Parse([]byte(src), "n", bcl.OptOutput(&out), bcl.OptLogger(&log), bcl.OptDisasm(i%2 == 0))
+			}
+			if err != nil {
+				outs[i] = "parse: " + err.Error()
+				return
+			}
+			var d bytes.Buffer
+			p.Dump(&d)
+			q, err := bcl.LoadProg(bytes.NewReader(d.Bytes()), "n", bcl.OptOutput(&out), bcl.OptLogger(&log))
+			if err != nil {
+				outs[i] = "load: " + err.Error()
+				return
+			}
+			bcl.Execute(q, bcl.OptTrace(i%4 == 1), bcl.OptStats(i%4 == 2), bcl.OptOutput(&out))
+			var tgt struct {
+				Name string
+				Port int
+				On   bool
+				Tag  string
+			}
+			if err := bcl.Unmarshal([]byte(src), &tgt, bcl.OptOutput(&out), bcl.OptLogger(&log)); err != nil {
+				outs[i] = "unmarshal: " + err.Error()
+				return
+			}
+			outs[i] = fmt.Sprintf("%+v", tgt)
+		}(i)
+	}
+	close(start)
+	wg.Wait()
+	for i, o := range outs {
+		if want := fmt.Sprintf("{Name:n%d Port:%d On:%v Tag:t%d}", i, i+1, i == 0, i); o != want {
+			rec.Fail(t, caseC12{ColdStart: true}, "cold start, caller %d of %d concurrent first callers: got %s, want %s", i, n, o, want)
+		}
+	}
+	rec.Case(true, harness.Hash("cold-start", os.Getpid()), "kind:cold-start")
+	for _, rep := range newRaceReports() {
+		if strings.Contains(rep, "github.com/wkhere/bcl") {
+			rec.Fail(t, caseC12{ColdStart: true}, "cold start (the first calls into the library in this process are concurrent): data race\n%s", clip(rep, 3000))
+		}
+	}
+}
+
 func TestC12(t *testing.T) {
 	rec := harness.Get("C12")
 	if path := replayPath(); path != "" {
 		var c caseC12
 		must(harness.LoadReplay(path, &c))
+		if c.ColdStart {
+			// a replay is a fresh process: the scenario is its first use of the library
+			newRaceReports()
+			coldStartC12(t, rec)
+			return
+		}
 		for i := 0; i < 20; i++ {
 			if viol, _, _ := checkC12(c); viol != "" {
 				rec.Fail(t, c, "%s", viol)
@@ -438,6 +510,7 @@ func TestC12(t *testing.T) {
 		return
 	}
 	newRaceReports()
+	coldStartC12(t, rec)
 	rapid.Check(t, func(t *rapid.T) {
 		c := genC12(t)
 		viol, nt, feats := checkC12(c)
